@@ -137,6 +137,8 @@ def lenStr : Option Nat → String
 structure Result where
   model : String
   spec : Option String := none
+  /-- when the property allows several outcomes: the observed result must be one of these -/
+  specSet : Option (List String) := none
   self : Option (String × String) := none
 
 /-! ### generator operations -/
